@@ -49,3 +49,100 @@ Print Assumptions engine_horizon.
 Theorem hzn_b_sound : forall cf s, Horizon.hzn_b cf s = true -> Horizon.Hzn cf s.
 Proof. exact Horizon.hzn_b_sound. Qed.
 Print Assumptions hzn_b_sound.
+
+(* ---- T2, second half of C14: the loop of simulate_until_max_customers over the ENGINE MODEL (coq/Inv/HorizonCount.v): the four counts are
+   exit_completed (Complete), exit_n (Finish), a_created (Arrive), a_accepted (Accept) ---- *)
+From CiwV.Inv Require HorizonCount.
+
+Theorem engine_count :
+  forall (cf : State.config) (m n : BinNums.Z) 
+         (ds : list State.draws) (s s' : State.sim) 
+         (rest : list State.draws),
+       HorizonCount.CInv cf s ->
+       HorizonCount.run_count cf m n s ds = State.Ok (s', rest) ->
+       exists (used : list State.draws) (tr : list State.sim),
+         ds = (used ++ rest)%list /\
+         length tr = length used /\
+         Codec.run_many cf s used = State.Ok s' /\
+         (forall (k : nat) (x : State.sim),
+          List.nth_error tr k = Some x ->
+          Codec.run_many cf s (List.firstn k used) = State.Ok x) /\
+         List.Forall
+           (fun x : State.sim => BinInt.Z.lt (HorizonCount.count_of m x) n)
+           tr /\
+         (rest <> nil -> BinInt.Z.le n (HorizonCount.count_of m s')) /\
+         (forall m' : BinNums.Z,
+          Horizon.chain (HorizonCount.count_of m' s)
+            (List.map (HorizonCount.count_of m') tr ++
+             HorizonCount.count_of m' s' :: nil)) /\
+         List.Forall (HorizonCount.CInv cf) tr /\ HorizonCount.CInv cf s'.
+Proof. exact HorizonCount.engine_count. Qed.
+Print Assumptions engine_count.
+
+Theorem count_means :
+  forall (cf : State.config) (s : State.sim),
+       HorizonCount.CInv cf s ->
+       BinInt.Z.le BinNums.Z0 (HorizonCount.count_of BinNums.Z0 s) /\
+       BinInt.Z.le (HorizonCount.count_of BinNums.Z0 s)
+         (HorizonCount.count_of (BinNums.Zpos BinNums.xH) s) /\
+       BinInt.Z.le (HorizonCount.count_of (BinNums.Zpos BinNums.xH) s)
+         (HorizonCount.count_of (BinNums.Zpos (BinNums.xO BinNums.xH)) s) /\
+       BinInt.Z.le BinNums.Z0
+         (HorizonCount.count_of (BinNums.Zpos (BinNums.xI BinNums.xH)) s) /\
+       BinInt.Z.le
+         (HorizonCount.count_of (BinNums.Zpos (BinNums.xI BinNums.xH)) s)
+         (HorizonCount.count_of (BinNums.Zpos (BinNums.xO BinNums.xH)) s) /\
+       BinInt.Z.sub (HorizonCount.count_of (BinNums.Zpos BinNums.xH) s)
+         (HorizonCount.count_of BinNums.Z0 s) =
+       BinInt.Z.sub
+         (HorizonCount.count_of (BinNums.Zpos (BinNums.xO BinNums.xH)) s)
+         (HorizonCount.count_of (BinNums.Zpos (BinNums.xI BinNums.xH)) s) /\
+       BinInt.Z.sub
+         (HorizonCount.count_of (BinNums.Zpos (BinNums.xO BinNums.xH)) s)
+         (HorizonCount.count_of (BinNums.Zpos BinNums.xH) s) =
+       Prelude.zsum (List.map State.n_pop (State.nodes s)).
+Proof. exact HorizonCount.count_means. Qed.
+Print Assumptions count_means.
+
+Theorem run_count_last :
+  forall (cf : State.config) (m n : BinNums.Z) 
+         (ds : list State.draws) (s s' : State.sim)
+         (rest u0 : list State.draws) (d : State.draws),
+       HorizonCount.run_count cf m n s ds = State.Ok (s', rest) ->
+       rest <> nil ->
+       ds = ((u0 ++ d :: nil) ++ rest)%list ->
+       exists x : State.sim,
+         Codec.run_many cf s u0 = State.Ok x /\
+         BinInt.Z.lt (HorizonCount.count_of m x) n /\
+         Engine.event_step cf
+           (RecordSet.set State.dr (fun _ : State.draws => d) x) =
+         State.Ok (tt, s') /\ BinInt.Z.le n (HorizonCount.count_of m s').
+Proof. exact HorizonCount.run_count_last. Qed.
+Print Assumptions run_count_last.
+
+Theorem run_many_count_mono :
+  forall (cf : State.config) (m : BinNums.Z) 
+         (ds : list State.draws) (s s' : State.sim),
+       Codec.run_many cf s ds = State.Ok s' ->
+       BinInt.Z.le (HorizonCount.count_of m s) (HorizonCount.count_of m s').
+Proof. exact HorizonCount.run_many_count_mono. Qed.
+Print Assumptions run_many_count_mono.
+
+Theorem run_count_split_eq :
+  forall (cf : State.config) (m n1 n : BinNums.Z),
+       BinInt.Z.le n1 n ->
+       forall (ds : list State.draws) (s : State.sim),
+       HorizonCount.run_count cf m n s ds =
+       match HorizonCount.run_count cf m n1 s ds with
+       | State.Ok (s1, r1) => HorizonCount.run_count cf m n s1 r1
+       | State.Err e => State.Err e
+       | State.OutOfFuel => State.OutOfFuel
+       end.
+Proof. exact HorizonCount.run_count_split_eq. Qed.
+Print Assumptions run_count_split_eq.
+
+Theorem cinv_b_sound :
+  forall (cf : State.config) (s : State.sim),
+       HorizonCount.cinv_b cf s = true -> HorizonCount.CInv cf s.
+Proof. exact HorizonCount.cinv_b_sound. Qed.
+Print Assumptions cinv_b_sound.
